@@ -77,6 +77,11 @@ func (auth *Authenticator) AuthenticateCookie(rq *http.Request, response http.Re
 		base.InfofCtx(auth.LogCtx, base.KeyAuth, "Session no longer valid for user %s", base.UD(session.Username))
 		return nil, base.HTTPErrorf(http.StatusUnauthorized, "Session no longer valid for user")
 	}
+	// A session created before the account was disabled must not keep authenticating it.
+	if user.Disabled() {
+		base.InfofCtx(auth.LogCtx, base.KeyAuth, "Session presented for disabled user %s", base.UD(session.Username))
+		return nil, base.HTTPErrorf(http.StatusUnauthorized, "Session no longer valid for user")
+	}
 	err = auth.deleteOneTimeSession(auth.LogCtx, &session)
 	if err != nil {
 		return nil, err
@@ -90,6 +95,10 @@ func (auth *Authenticator) AuthenticateCookie(rq *http.Request, response http.Re
 func (auth *Authenticator) AuthenticateOneTimeSession(ctx context.Context, sessionID string) (User, error) {
 	session, user, err := auth.GetSession(sessionID)
 	if err != nil {
+		return nil, base.HTTPErrorf(http.StatusUnauthorized, "Session Invalid")
+	}
+	// A session created before the account was disabled must not authenticate it.
+	if user.Disabled() {
 		return nil, base.HTTPErrorf(http.StatusUnauthorized, "Session Invalid")
 	}
 
